@@ -11,6 +11,8 @@ import (
 	"time"
 
 	"verif/harness/ev"
+	"verif/harness/probe"
+	"verif/harness/sched"
 	"verif/harness/world"
 )
 
@@ -104,8 +106,17 @@ func matrixC04(t *testing.T, r *ev.Run) {
 	deltas := []time.Duration{0, R / 2, 2 * R, E / 2, E - R/2}
 	for _, nc := range matrixCfgs() {
 		for _, delta := range deltas {
-			for _, coldToo := range []bool{false, true} {
-				name := fmt.Sprintf("c04/%s/delta=%s/cold=%v", nc.name, delta, coldToo)
+			for variant := 0; variant < 4; variant++ {
+				coldToo := variant == 1
+				// variants 2 and 3: from the moment the system key has expired every encrypt of the long-lived session
+				// meets a transient fault at its first metastore read (2) or KMS call (3): the operation may fail, but
+				// it must not fall back to the cached intermediate key under the expired system key for longer than
+				// the property allows; the last encrypt runs without a fault and has to rotate
+				faultKind := 0
+				if variant >= 2 {
+					faultKind = variant - 1
+				}
+				name := fmt.Sprintf("c04/%s/delta=%s/cold=%v/fault=%d", nc.name, delta, coldToo, faultKind)
 				scripted(t, r, name, OC04|OC01, E, R, P, func(h *hist) {
 					time.Sleep(17 * time.Second) // not on a precision boundary
 					fa := h.factWith(nc.cfg)
@@ -132,6 +143,15 @@ func matrixC04(t *testing.T, r *ev.Run) {
 							continue
 						}
 						sleepUntil(pt)
+						if faultKind != 0 && pt.After(skBorn.Add(E)) && pt != pts[len(pts)-1] {
+							h.p.FaultPct = -1 // faults are placed by the scenario
+							if faultKind == 1 {
+								h.w.MS.ReadFaultIn = 1
+							} else {
+								h.w.KMS.Faults[h.w.KMS.N()] = true
+							}
+							r.Count("matrix_c04_faults_armed", 1)
+						}
 						h.encrypt(s)
 						if coldToo {
 							fb := h.factWith(nc.cfg)
@@ -197,18 +217,156 @@ func f11C04(t *testing.T, r *ev.Run) {
 	})
 }
 
+// matrixC03Faults: a process that finds the keys already in the metastore performs its first operation while the
+// k-th secure-memory allocation or KMS call of that operation fails; whatever the outcome, the records it
+// produces afterwards (without faults) must follow the envelope discipline - data keys wrapped under the partition's
+// real intermediate key - and decrypt in another process.
+func matrixC03Faults(t *testing.T, r *ev.Run) {
+	E, R, P := 10*time.Hour, 5*time.Minute, time.Minute
+	for _, nc := range matrixCfgs() {
+		for _, dom := range []string{"alloc", "kms"} {
+			for k := 0; k < 4; k++ {
+				for _, firstOp := range []string{"enc", "dec"} {
+					name := fmt.Sprintf("c03/first-op-fault/%s/%s#%d/%s", nc.name, dom, k, firstOp)
+					scripted(t, r, name, OC03|OC01, E, R, P, func(h *hist) {
+						time.Sleep(29 * time.Second)
+						fa := h.factWith(nc.cfg)
+						sa := h.openSess(fa, "P")
+						h.encrypt(sa)
+						first := h.recs[0]
+						time.Sleep(R + P)
+						fb := h.factWith(nc.cfg)
+						sb := h.openSess(fb, "P")
+						h.p.FaultPct = -1 // faults are placed by the scenario
+						switch dom {
+						case "alloc":
+							h.w.Led.FailAt[h.w.Led.Calls()+k] = true
+							h.ledArmBase = h.w.Led.Calls()
+						case "kms":
+							h.w.KMS.Faults[h.w.KMS.N()+k] = true
+						}
+						if firstOp == "enc" {
+							h.encrypt(sb)
+						} else {
+							h.decrypt(sb, first, "other-factory")
+						}
+						n0 := len(h.recs)
+						h.encrypt(sb)
+						h.encrypt(sb)
+						h.decrypt(sb, first, "other-factory")
+						fc := h.factWith(nc.cfg)
+						sc := h.openSess(fc, "P")
+						for _, rec := range h.recs[n0:] {
+							h.decrypt(sc, rec, "fresh-factory")
+						}
+					})
+				}
+			}
+		}
+	}
+}
+
+// matrixC04Race: the system key has expired; process A (partition P) has read it and is about to insert its
+// replacement when process B (partition Q) completes a whole rotation. A's insert is then refused as a duplicate of
+// B's (same creation stamp) and A has to adopt B's key: the intermediate key A creates next must sit under a system
+// key that is not expired. The metastore monitor's gate holds A exactly in front of its system-key insert.
+func matrixC04Race(t *testing.T, r *ev.Run) {
+	E, R, P := time.Hour, 5*time.Minute, time.Minute
+	for _, nc := range matrixCfgs() {
+		for _, warm := range []bool{false, true} {
+			name := fmt.Sprintf("c04/sk-rotation-race/%s/sk-freshly-cached=%v", nc.name, warm)
+			scripted(t, r, name, OC04|OC01, E, R, P, func(h *hist) {
+				time.Sleep(17 * time.Second)
+				fa := h.factWith(nc.cfg)
+				sa := h.openSess(fa, "P")
+				h.encrypt(sa) // SK0 and IK_P
+				first := h.recs[0]
+				time.Sleep(E + 2*P + 11*time.Second) // both expired
+				fb := h.factWith(nc.cfg)
+				sb := h.openSess(fb, "Q")
+				if warm {
+					// A's system-key cache holds the expired key, freshly re-checked
+					h.decrypt(sa, first, "same-factory")
+				}
+				reached, release := make(chan struct{}), make(chan struct{})
+				held := false
+				h.w.MS.Gate = func(c *probe.MSCall) {
+					if !held && c.Op == "store" && strings.HasPrefix(c.ID, "_SK_") && sched.Label() == "A" {
+						held = true
+						close(reached)
+						<-release
+					}
+				}
+				done := make(chan struct{})
+				go func() {
+					defer close(done)
+					sched.SetLabel("A")
+					defer sched.ClearLabel()
+					h.encrypt(sa)
+				}()
+				synctest.Wait()
+				select {
+				case <-reached:
+					r.Count("c04_race_a_held_before_sk_insert", 1)
+					h.logf("A is held in front of its system-key insert; B rotates")
+					h.w.MS.Gate = nil
+					h.encrypt(sb)
+					close(release)
+				default:
+					// A did not get as far as inserting a system key (nothing to race with): plain sequential run
+					h.w.MS.Gate = nil
+				}
+				<-done
+				h.w.MS.Gate = nil
+				h.encrypt(sa)
+				h.encrypt(sb)
+				h.decrypt(h.openSess(fb, "P"), first, "other-factory")
+			})
+		}
+	}
+}
+
 // matrixC05: fill a cache, flip a key in the raw store at a chosen offset, optionally let another process rotate,
 // then encrypt through the long-lived session every R/4 for 4R.
 func matrixC05(t *testing.T, r *ev.Run) {
+	matrixC05R(t, r, 5*time.Minute)
+	// a zero revoke-check interval: every use re-checks the key, so a revocation takes effect on the next encrypt
+	// after a later creation stamp has become available
+	matrixC05R(t, r, 0)
+	// F11 reproduction: SK revoked long ago, cold cache decrypts then encrypts.
 	E, R, P := 10*time.Hour, 5*time.Minute, time.Minute
+	scripted(t, r, "c05/f11-decrypt-seeds-latest", OC05, E, R, P, func(h *hist) {
+		time.Sleep(23 * time.Second)
+		fa := h.factWith(matrixCfgs()[0].cfg)
+		s := h.openSess(fa, "P")
+		h.encrypt(s)
+		cur := h.recs[0]
+		row := h.w.Raw(cur.drr.Key.ParentKeyMeta.ID, cur.drr.Key.ParentKeyMeta.Created)
+		h.w.Revoke(row.ParentKeyMeta.ID, row.ParentKeyMeta.Created, time.Now())
+		h.logf("REVOKE latest-SK (%s,%d)", row.ParentKeyMeta.ID, row.ParentKeyMeta.Created)
+		time.Sleep(10 * R)
+		fb := h.factWith(matrixCfgs()[0].cfg)
+		cs := h.openSess(fb, "P")
+		h.decrypt(cs, cur, "fresh-factory")
+		h.encrypt(cs)
+	})
+}
+
+func matrixC05R(t *testing.T, r *ev.Run, R time.Duration) {
+	E, P := 10*time.Hour, time.Minute
 	offsets := []time.Duration{0, R / 2, R - time.Nanosecond, R + time.Nanosecond, 3 * R}
+	step := R / 4
+	if R == 0 {
+		offsets = []time.Duration{0, 7 * time.Second}
+		step = P / 3
+	}
 	for _, nc := range matrixCfgs() {
 		for _, which := range []string{"latest-IK", "latest-SK", "older-IK", "older-SK"} {
 			for _, off := range offsets {
 				for _, variant := range []int{0, 1, 2} {
 					otherRotates := variant == 1
 					faulty := variant == 2 // a transient read error hits the periodic re-check once per interval
-					name := fmt.Sprintf("c05/%s/%s/offset=%s/other=%v/faulty=%v", nc.name, which, off, otherRotates, faulty)
+					name := fmt.Sprintf("c05/R=%s/%s/%s/offset=%s/other=%v/faulty=%v", R, nc.name, which, off, otherRotates, faulty)
 					scripted(t, r, name, OC05|OC01, E, R, P, func(h *hist) {
 						time.Sleep(23 * time.Second)
 						fa := h.factWith(nc.cfg)
@@ -249,7 +407,7 @@ func matrixC05(t *testing.T, r *ev.Run) {
 							h.encrypt(bs)
 						}
 						for i := 0; i < 16; i++ {
-							time.Sleep(R / 4)
+							time.Sleep(step)
 							// the first re-check of the cached key after the flip meets a transient read error
 							// (armed on every encrypt until one read actually happens and fails)
 							from := h.w.MS.N()
@@ -278,20 +436,4 @@ func matrixC05(t *testing.T, r *ev.Run) {
 			}
 		}
 	}
-	// F11 reproduction: SK revoked long ago, cold cache decrypts then encrypts.
-	scripted(t, r, "c05/f11-decrypt-seeds-latest", OC05, E, R, P, func(h *hist) {
-		time.Sleep(23 * time.Second)
-		fa := h.factWith(matrixCfgs()[0].cfg)
-		s := h.openSess(fa, "P")
-		h.encrypt(s)
-		cur := h.recs[0]
-		row := h.w.Raw(cur.drr.Key.ParentKeyMeta.ID, cur.drr.Key.ParentKeyMeta.Created)
-		h.w.Revoke(row.ParentKeyMeta.ID, row.ParentKeyMeta.Created, time.Now())
-		h.logf("REVOKE latest-SK (%s,%d)", row.ParentKeyMeta.ID, row.ParentKeyMeta.Created)
-		time.Sleep(10 * R)
-		fb := h.factWith(matrixCfgs()[0].cfg)
-		cs := h.openSess(fb, "P")
-		h.decrypt(cs, cur, "fresh-factory")
-		h.encrypt(cs)
-	})
 }
